@@ -705,7 +705,7 @@ func (n *native) run(replay string) (string, error) {
 	cmd.Dir = filepath.Join(repoModule, n.spec.Pkg)
 	cmd.Env = append(os.Environ(), "VERIF_REPLAY="+replay)
 	out, _ := cmd.CombinedOutput()
-	if !strings.Contains(string(out), "VERIF-DONE") && !strings.Contains(string(out), "panic: test timed out") {
+	if !strings.Contains(string(out), "VERIF-DONE") && !strings.Contains(string(out), "panic: test timed out") && !strings.Contains(string(out), "fatal error:") {
 		return string(out), fmt.Errorf("native harness did not finish:\n%s", tail(string(out), 30))
 	}
 	return string(out), nil
@@ -737,7 +737,7 @@ func tail(s string, n int) string {
 
 func nativeFailed(out, assertID string) bool {
 	if assertID == "panic" {
-		return strings.Contains(out, "VERIF-PANIC")
+		return strings.Contains(out, "VERIF-PANIC") || strings.Contains(out, "fatal error:")
 	}
 	if assertID == "deadlock" {
 		return strings.Contains(out, "test timed out") || strings.Contains(out, "all goroutines are asleep")
